@@ -3,7 +3,7 @@ import ArcSwapModel.Tie.LibRcu
 import ArcSwapModel.Tie.LibPtrEq
 import ArcSwapModel.Tie.LibGuardIntoInner
 import ArcSwapModel.Tie.LibLoad
-import ArcSwapModel.Inv.HazD5
+import ArcSwapModel.Inv.RcuVal2
 
 /-!
 # C06 — rcu is an atomic read-modify-write (partial: the commit; see the end for what is missing)
@@ -180,13 +180,47 @@ theorem C06_closure_step_no_fault_partial (K N T : Nat) (hK : 0 < K) (cfg : Cfg)
     (microStep (run (State.initial cfg progs) sched) t b).1.sh.fault = none :=
   rcu_attempt_no_fault K N T hK cfg progs sched he hf t ht b c out tries cur hop
 
+/-- **an object keeps its identity and content while it is counted**: the allocator hands out only
+    addresses whose count is zero, so no step changes the `id` or the content of an object with a
+    positive count — pointer equality is object identity for as long as a guard or handle keeps the
+    object alive -/
+theorem C06_counted_object_keeps_identity (st : State) (t : Nat) (b : Bool) (a : Nat)
+    (hroom : ∀ v, (st.sh.heap (alloc st.sh v).2.1).cnt = 0) (hc : 1 ≤ (st.sh.heap a).cnt) :
+    ((microStep st t b).1.sh.heap a).id = (st.sh.heap a).id ∧
+      ((microStep st t b).1.sh.heap a).val = (st.sh.heap a).val :=
+  counted_keeps_identity st t b a hroom hc
+
+/-- **`rcu` installs `f(v)` on top of the very `v` it gave to `f` (partial)**: with the closure
+    `|v| v + 1`, at the step at which an `rcu` exchanges the pointer (the container holds the
+    address the closure was given), the container afterwards holds the allocated object and its
+    content is the replaced content plus one — the replaced object is the one the closure saw, kept
+    alive (hence never re-allocated) by the guard from the load to the exchange.  So completed
+    `rcu` increments compose like sequential ones: each adds exactly one to what it replaces.
+    Along every execution that satisfies the ledger's assumptions and has raised no fault. -/
+theorem C06_exchange_adds_one_partial (K N T : Nat) (hK : 0 < K) (cfg : Cfg) (progs : Nat → List (String × Op))
+    (sched : List (Nat × Bool)) (he : EnvRun0 K N T (State.initial cfg progs) sched)
+    (hf : (run (State.initial cfg progs) sched).sh.fault = none)
+    (t c out tries : Nat) (cur : Guard) (a : Nat) (old : Guard)
+    (hop : ((run (State.initial cfg progs) sched).th t).op = .rcu c out tries (.cas cur a (.cx old)))
+    (hq : (run (State.initial cfg progs) sched).sh.cells c = some cur.ptr) :
+    (microStep (run (State.initial cfg progs) sched) t false).1.sh.cells c = some a ∧
+      valOf (microStep (run (State.initial cfg progs) sched) t false).1.sh a =
+        valOf (run (State.initial cfg progs) sched).sh cur.ptr + 1 :=
+  rcu_exchange_adds_one K N T hK cfg progs sched he hf t c out tries cur a old hop hq
+
+/-- the invariant behind it, for every state between the closure and the exchange -/
+theorem C06_result_is_f_of_loaded_partial (K N T : Nat) (hK : 0 < K) (cfg : Cfg) (progs : Nat → List (String × Op))
+    (sched : List (Nat × Bool)) (he : EnvRun0 K N T (State.initial cfg progs) sched)
+    (hf : (run (State.initial cfg progs) sched).sh.fault = none) :
+    RcuVal2 (run (State.initial cfg progs) sched) :=
+  rcuVal_run K N T hK cfg progs sched he hf
+
 /-!
-Not proved yet: the fold theorem "k completed increments add exactly k" (it needs, besides
-`C06_commit` and the liveness above, that the object's identity is fixed between the load and the
-exchange — the guard `cur` keeps the address from being reused: a corollary still to be stated over
-`hist`), and that the results of discarded attempts are destroyed (ownership accounting, C02).  The
-harness checks both on every execution (content installed = content replaced + 1; no leak at
-quiescence).
+Not proved: that the results of discarded attempts are destroyed (it is the ownership accounting of
+C02: the rejected `new` is released by `dropNew`, a step whose count operation is covered by
+`C01_count_step_no_fault_partial`), and the fold over a whole execution as one statement about
+`hist` (each exchange adds one — above — and nothing else writes the container: C04).  The harness
+checks both on every execution (content installed = content replaced + 1; no leak at quiescence).
 -/
 
 end C06
